@@ -47,6 +47,7 @@ func init() {
 	runners["C15"] = func(c *Ctx) {
 		runSrv4(c)
 		runL2Sequence(c)
+		runFrames(c)
 	}
 }
 
